@@ -58,6 +58,15 @@ CLAIMS = {
         "operations of per-item digests from fresh fixed-key hashers); no sink write inside any hash-set iteration reachable from Term::hash.",
    note="Trusted base: rustc MIR construction and call resolution; std Hash impls for String/usize/str/Box; determinism of DefaultHasher::new(); "
         "algebra of wrapping_add/xor/wrapping_mul; the rule layer's idiom recognisers (unrecognised idioms are reported, never guessed)."),
+ "C09": dict(
+   level="other", design="DESIGN.md §4 C09",
+   technique="static analysis: interprocedural typestate (spaces-skipped / token-just-consumed) over the enum parser's MIR with summaries; must-pass-through rule for the lexical entries; table rule",
+   text="Decides the structural half of C09: in the enum parser every token-start read (keyword or delimiter test, copula look-ahead, branch on the "
+        "current character, or a callee that starts with one) is reached only in the state `spaces skipped` on all non-error paths (79 read sites in 49 "
+        "functions; two reviewed exceptions: atom prefix+name is one token); every lexical &str entry hands the parser idealize_env(format,input), which "
+        "filters all chars matching the table's is_for_parse = char::is_whitespace. Hence inserting spaces at any token boundary cannot change the parse. "
+        "That removing all spaces never glues tokens for every value is not decided.",
+   note="Trusted: rustc MIR, the typestate engine (one modelled flag correlation, Err edges exempt), the two listed exceptions."),
 }
 
 NOT_YET = "check not built yet (DESIGN.md §8 build order); will be claimed once its rules run"
